@@ -148,6 +148,15 @@ func (fr *Frame) evalModLoc(env *Env, cl Clause) (out []modLoc) {
 		}
 		if id, ok := x.Fun.(*ast.Ident); ok && id.Name == "all" {
 			// all(T.f) : field f of every object of type T ; all(T) : every field
+			if wt := env.resolveType(x.Args[0]); wt != nil {
+				if m, ok := under(wt).(*types.Map); ok {
+					return []modLoc{{root: "M|" + canon(m), whole: true}}
+				}
+				if s, ok := under(wt).(*types.Slice); ok {
+					return []modLoc{{root: "E|" + canon(s.Elem()), whole: true}}
+				}
+				return []modLoc{{root: ptrRoot(wt), whole: true}}
+			}
 			switch a := x.Args[0].(type) {
 			case *ast.SelectorExpr:
 				t := env.resolveType(a.X)
